@@ -131,6 +131,14 @@ pub fn run(ctx: &mut Ctx) {
         let cases = ctx.cases(3000, 15);
         ctx.forall(&format!("comp/{}", id.name()), cases, strat(id, max), dispatch_comp);
     }
+    for id in ALL_CODECS {
+        let th = ctx.thorough();
+        let cases = ctx.cases(6, 8);
+        ctx.forall(&format!("rev_long/{}", id.name()), cases, gen::seq_spec_long(id, th).prop_map(move |s| Case { codec: id, s }), dispatch_rev);
+        if COMP_CODECS.contains(&id) {
+            ctx.forall(&format!("comp_long/{}", id.name()), cases, gen::seq_spec_long(id, th).prop_map(move |s| Case { codec: id, s }), dispatch_comp);
+        }
+    }
     // bounded-exhaustive: every window (offset 0..=max_pre, length 0..=L) of one fixed parent per codec
     for id in ALL_CODECS {
         let m = id.model();
